@@ -21,7 +21,7 @@ Definition render_block (b : bdesc) : list str :=
 
 Definition graph_of (L : list wedge) : ginfo :=
   let g := add_all L ([], []) in
-  {| gi_nodes := fst g; gi_edges := snd g; gi_n := length (fst g); gi_m := length (snd g) |}.
+  {| gi_nodes := fst g; gi_edges := snd g; gi_n := length (fst g); gi_m := length (snd g); gi_w := width (fst g) (snd g) |}.
 
 Definition has_src (L : list wedge) : Prop := exists x, endpoint x L /\ forall e, In e L -> snd (fst e) <> x.
 Definition has_snk (L : list wedge) : Prop := exists x, endpoint x L /\ forall e, In e L -> fst (fst e) <> x.
@@ -57,9 +57,10 @@ Definition finish (hdrs : list str) (cstr : list (list (str * str))) (body : lis
              if has_source ns es then
                if has_sink ns es then
                  Ok {| gid := hd_error hdrs; gcons := cstr;
-                       ginf := Some {| gi_nodes := ns; gi_edges := es; gi_n := length ns; gi_m := length es |} |}
-               else no_st ns ENoSink
-             else no_st ns ENoSource
+                       ginf := Some {| gi_nodes := ns; gi_edges := es; gi_n := length ns; gi_m := length es;
+                                       gi_w := width ns es |} |}
+               else Error ENoSink
+             else Error ENoSource
            else Error EMissingConstraintEdge
        end.
 
